@@ -82,6 +82,10 @@ def run(ctx):
     # the ordering comparators answer with Variable's Ord on two numbers: its case table (shared with C02 / C10)
     from .c02 import check_internal_order
     ctx.attempt("check_internal_order", check_internal_order, ctx, lib)
+    # a literal evaluates to the value the JSON parse built for its text: the Deserialize visitor rows (exact integers, arrival
+    # order, last duplicate wins; shared with C08)
+    from .c08 import check_visitor
+    ctx.attempt("check_visitor", check_visitor, ctx, lib)
     # where a projection's right-hand side (and every operand) ends is decided by the parser's binding powers: the
     # operand-power rows of C04 on the same facts
     from ..parsing import lbp_table
